@@ -21,13 +21,15 @@
 
    Fix14 = FALSE is the pinned tree (stale "Canceled" inherited by c2: F14), TRUE the repaired one. *)
 EXTENDS Integers, Sequences, TLC
-CONSTANTS Kind,    \* "normal" | "panic" | "park_cancel" | "sleep_cancel" | "tpark_timeout" | "select_cancel"
+CONSTANTS Kind,    \* "normal" | "panic" | "park_cancel" | "sleep_cancel" | "tpark_timeout" | "select_cancel" | "dropyield_cancel" | "sleep_dropyield_cancel"
           Fix14
 VARIABLES pc, para, cbit, slot, timer, tok2, res2, ended, ev, res1
 vars == <<pc, para, cbit, slot, timer, tok2, res2, ended, ev, res1>>
 Cos == {"c1", "c2"}
 Actors == {"d", "c1", "c2"}
-Cancels == Kind \in {"park_cancel", "sleep_cancel"}
+Cancels == Kind \in {"park_cancel", "sleep_cancel", "dropyield_cancel", "sleep_dropyield_cancel"}
+\* the occupant owns a guard whose destructor calls yield_now()
+DropYield == Kind \in {"dropyield_cancel", "sleep_dropyield_cancel"}
 Timed == Kind \in {"tpark_timeout"}
 
 Init ==
@@ -52,7 +54,7 @@ C1Run ==
 
 \* park(None) / sleep(1h) / park(10ms): yield_with
 C1Block ==
-  /\ pc["c1"] = "ru.block"
+  /\ pc["c1"] = "ru.block" /\ Kind # "dropyield_cancel"
   /\ IF cbit["c1"]
        THEN para' = "Canceled" /\ Goto("c1", "yb")          \* short-cut of yield_with
        ELSE para' = para /\ Goto("c1", "sub_store")
@@ -73,7 +75,9 @@ C1SubRecheck ==
 C1YieldBack ==
   /\ pc["c1"] = "yb"
   /\ IF cbit["c1"]
-       THEN para' = "none" /\ ended' = [ended EXCEPT !["c1"] = "cancel"] /\ Goto("c1", "done")
+       THEN /\ para' = "none"
+            /\ IF DropYield THEN UNCHANGED ended /\ Goto("c1", "unw_yield")     \* the Cancel panic unwinds through the guard
+                            ELSE ended' = [ended EXCEPT !["c1"] = "cancel"] /\ Goto("c1", "done")
        ELSE UNCHANGED <<para, ended>> /\ Goto("c1", "epi")
   /\ UNCHANGED <<cbit, slot, timer, tok2, res2, ev, res1>>
 \* the epilogue of park_timeout / sleep consumes the result
@@ -82,6 +86,27 @@ C1Epilogue ==
   /\ res1' = (IF para = "none" THEN "Ok" ELSE para) /\ para' = "none"
   /\ ended' = [ended EXCEPT !["c1"] = "ret"] /\ Goto("c1", "done")
   /\ UNCHANGED <<cbit, slot, timer, tok2, res2, ev>>
+
+\* The occupant owns a guard whose destructor calls yield_now() (as Park::drop does while `wait_kernel` is set) and
+\* its stack unwinds - Kind = "dropyield_cancel": it panics by itself, a cancel may be pending;
+\* Kind = "sleep_dropyield_cancel": it is cancelled in a sleep, the Cancel panic unwinds it.  With the cancel bit set
+\* yield_with takes its short-cut - it writes "Canceled" into the slot - and yield_back's check_cancel must consume it
+\* although it cannot raise the Cancel panic (the stack is unwinding already).  Both paths were missing from the
+\* model; found by the seeded changes C13-3 / C15-3.
+C1PanicDropYield ==
+  /\ pc["c1"] = "ru.block" /\ Kind = "dropyield_cancel"
+  /\ Goto("c1", "unw_yield")
+  /\ UNCHANGED <<para, cbit, slot, timer, tok2, res2, ended, ev, res1>>
+C1UnwindYield ==
+  /\ pc["c1"] = "unw_yield"
+  /\ para' = (IF cbit["c1"] THEN "Canceled" ELSE para)
+  /\ Goto("c1", "yb_unw")
+  /\ UNCHANGED <<cbit, slot, timer, tok2, res2, ended, ev, res1>>
+C1UnwindBack ==
+  /\ pc["c1"] = "yb_unw"
+  /\ para' = (IF cbit["c1"] THEN "none" ELSE para)     \* check_cancel: get_co_para() before the (suppressed) panic
+  /\ ended' = [ended EXCEPT !["c1"] = IF Kind = "dropyield_cancel" THEN "panic" ELSE "cancel"] /\ Goto("c1", "done")
+  /\ UNCHANGED <<cbit, slot, timer, tok2, res2, ev, res1>>
 
 \* a select arm: EventSender::send
 C1SendCheck ==
@@ -188,13 +213,13 @@ C2Epilogue ==
 
 Step(a) ==
   CASE a = "d" -> DCancel \/ DLeave \/ DDropCancel \/ DUnpark \/ DJoinPt
-    [] a = "c1" -> C1Block \/ C1SendCheck \/ C1SendYield
+    [] a = "c1" -> C1Block \/ C1PanicDropYield \/ C1SendCheck \/ C1SendYield
     [] OTHER -> C2Park
 Internal(a) ==
   CASE a = "d" -> DCancelTake \/ DDrainEvent \/ DJoin \/ DUnparkTake \/ DFinish
-    [] a = "c1" -> C1Run \/ C1SubStore \/ C1SubRecheck \/ C1YieldBack \/ C1Epilogue \/ C1SendBack
+    [] a = "c1" -> C1Run \/ C1SubStore \/ C1SubRecheck \/ C1YieldBack \/ C1Epilogue \/ C1SendBack \/ C1UnwindYield \/ C1UnwindBack
     [] OTHER -> C2Start \/ C2SubStore \/ C2SubRecheck \/ C2Epilogue
-InternalPcs == {"run", "sub_store", "sub_recheck", "yb", "epi", "yb_es", "cancel_take", "unpark_take", "start",
+InternalPcs == {"run", "sub_store", "sub_recheck", "yb", "unw_yield", "yb_unw", "epi", "yb_es", "cancel_take", "unpark_take", "start",
                 "sub2_store", "sub2_recheck", "epi2"}
 Terminal == pc["d"] = "done" /\ UNCHANGED vars
 Next == (\E a \in Actors : Step(a) \/ Internal(a)) \/ Tick \/ Terminal
